@@ -237,7 +237,14 @@ def rule_margin(rep, tname, m):
             ok = True
         K = sp.simplify(chunk - ev - ceils[0])
         detail = "end_idx = chunk − (%s) − ceil(%s)" % (K, M)
-    rep.ob(R, key + "/step-margin", ok,
+    # the key of a failing instance names the diagnosed form, so that the recorded finding (margin = ceil(1/target) only) cannot absorb a different defect
+    sig = ""
+    if not ok:
+        sig = "/ceil-of-target-step-only" if (len(ceils) == 1 and sp.simplify(ceils[0].args[0] - 1 / t) == 0 and not ev.atoms(trunc_f)) else "/unrecognised-form"
+    if sig == "/unrecognised-form":
+        detail += " - not of the form chunk − K − ceil(step): " + ("the bound is computed in floating point and converted with `as isize`, which truncates toward zero, "
+                                                                  "so a negative bound comes out one too high" if ev.atoms(trunc_f) else "no ceil(step) term")
+    rep.ob(R, key + "/step-margin" + sig, ok,
            detail + "; every step of the chunk lies between 1/resample_ratio and 1/target_ratio, so the margin must be ceil(max(1/resample_ratio, 1/target_ratio)). "
            "With ceil(1/target_ratio) alone a ramp towards a higher ratio takes steps larger than the margin and reads past the end of the buffer", loc(fn),
            sample={"type": tname, "end_idx": str(ev)})
@@ -319,7 +326,7 @@ def rule_history(rep, tname, m):
     mr, ro = alg.sym("max_relative_ratio"), alg.sym("resample_ratio_original")
     bound = ceil_f(mr / ro)
     has = any(sp.simplify(c.args[0] - mr / ro) == 0 for c in H.atoms(ceil_f))
-    rep.ob(R, key, has,
+    rep.ob(R, key + ("" if has else "/H=%s" % str(H).replace(" ", "")), has,
            "history length H = %s has no term covering the largest admissible step ceil(max_relative_ratio/resample_ratio_original): after a call at a low ratio "
            "(large step) up to K+ceil(step) input frames remain unevaluated; a following in-range change to a high ratio (small step) then places the read position "
            "before the start of the buffer (negative index → wrap → out-of-bounds unchecked read / assert panic)" % H, loc(fn, m["shift"]["node"]),
@@ -394,7 +401,7 @@ def rule_subindex(rep):
         if also_new is not None:
             guards += [x for x in walk(also_new["body"]) if x.get("k") == "if" and any((y.get("k") == "field" and y["name"] == "oversampling_factor") for y in walk(x["c"]))]
         ok = worst <= 1 or bool(guards)
-        rep.ob(R, t, ok,
+        rep.ob(R, t + ("" if ok else "/unchecked-min-factor:" + ",".join("%s>=%d" % kv for kv in sorted(need.items()) if kv[1] > 1)), ok,
                "minimum oversampling factor per interpolation type %s (offsets added to the sub-index, single wrap); the constructor accepts any factor, e.g. 1 with Cubic/Quadratic: "
                "the first process call then panics in the kernel's `subindex < nbr_sincs` assert" % need, loc(cfn), sample={"type": t, "min_factor": need})
 
@@ -608,6 +615,15 @@ def run(rep):
     rep.guarded("R-C03-subindex", rule_subindex)
     rep.guarded("R-C03-panic-sites", rule_panics)
     rep.guarded("R-C03-fft-capacity", rule_fft_capacity)
+    # the (index, sub-index) pairs handed to the kernels come from get_nearest_time{,s_2,_3,_4}: their wrap (sub-index < factor, carry into the index)
+    # is what keeps the kernels' `subindex < nbr_sincs` assertion from firing - shared with C01
+    import C01
+    import C08
+    holder = {}
+    rep.guarded("R-C01-poly", lambda r: holder.update(polys=C08.rule_poly(C08._Silent(r), "R-C01-poly", "asynchro_sinc", ["interp_cubic", "interp_quad", "interp_lin"])))
+    rep.guarded("R-C01-nodes", lambda r: C01.rule_nodes(r, holder.get("polys", {})))
+    rep.floor("R-C01-nodes", 12)
+    rep.clause("R-C01-nodes", "the nearest-time helpers return sub-indices in [0, factor) with the carry into the sample index, and every arm uses the matching helper (shared with C01)")
     import arith
     rep.guarded("R-C03-arith", arith.run)
     rep.floor("R-C03-arith", 60)     # 74 sites on the reviewed tree; a few may legitimately disappear (e.g. saturating_sub)
